@@ -119,6 +119,9 @@ func (packet *ParsePacket) Zeroize() {
 }
 
 // NewParsePacket parse data and return as ParsePacket or error
+// ErrParsePacketTooShort is returned for a Parse packet that ends before the declared number of parameter types
+var ErrParsePacketTooShort = errors.New("parse packet is too short")
+
 func NewParsePacket(data []byte) (*ParsePacket, error) {
 	startIndex := bytes.Index(data, terminator)
 	if startIndex == -1 {
@@ -134,11 +137,17 @@ func NewParsePacket(data []byte) (*ParsePacket, error) {
 	// convert to absolute
 	endIndex += startIndex + 1
 	query := data[startIndex:endIndex]
+	if endIndex+2 > len(data) {
+		return nil, ErrParsePacketTooShort
+	}
 	numParams := paramsNum(data[endIndex : endIndex+2])
 	endIndex += 2
 	var params []objectID
 	if endIndex < len(data) {
 		for i := 0; i < numParams.ToInt(); i++ {
+			if endIndex+4 > len(data) {
+				return nil, ErrParsePacketTooShort
+			}
 			params = append(params, data[endIndex:endIndex+4])
 			endIndex += 4
 		}
